@@ -17,7 +17,7 @@ def fail(node, why):
 
 BASE_TY = {'Z': 'Z', 'T': 'T', 'B': 'bool', 'S': 'string', 'unit': 'unit', 'vec': 'vec', 'mat': 'mat', 'zvec': '(list Z)',
            'exit': '(Z * string)', 'proj': '(vec -> vec)', 'hfun': '(vec -> T)', 'scal': '(vec * vec)',
-           'ans': '(vec * T)', 'evlog': '(vec * Z * Z)'}
+           'ans': '(vec * T)', 'evlog': '(vec * Z * Z)', 'bvec': '(list bool)'}
 
 
 def coqty(t):
@@ -138,9 +138,8 @@ class Tr:
             if not t.startswith('opt:'):
                 inner, _ = self.coerce(txt, t, want[4:], node)
                 return '(Some %s)' % inner, want
-        if t == 'opt:' + want and want in ('Z',) and txt.startswith('l_') and txt[2:].isidentifier() and getattr(self, 'unwraps', None) is not None:
-            self.unwraps.add(txt[2:])         # the enclosing simple statement is wrapped in a match (None -> TypeError)
-            return 'u_' + txt[2:], want
+        if t == 'opt:' + want and want in ('Z', 'T') and txt.startswith('l_') and txt[2:].isidentifier():
+            return self.unwrap(txt[2:], node), want
         if want.startswith('tup:') and t.startswith('tup:'):
             ws, ts = split_tup(want), split_tup(t)
             if len(ws) == len(ts) and txt.startswith('(TUP|'):
@@ -148,6 +147,15 @@ class Tr:
                 outs = [self.coerce(p, tt, ww, node)[0] for p, tt, ww in zip(parts, ts, ws)]
                 return '(' + ', '.join(outs) + ')', want
         fail(node, 'cannot coerce %s to %s' % (t, want))
+
+    def unwrap(self, name, node):
+        """payload of an option-typed local read as a plain value: bound once around the enclosing statement (None -> Err)"""
+        if name in self.__dict__.setdefault('active_unwraps', set()):
+            return 'u_' + name
+        if getattr(self, 'unwraps', None) is None:
+            fail(node, 'option-typed local %s read where it cannot be unwrapped' % name)
+        self.unwraps.add(name)
+        return 'u_' + name
 
     def _e(self, n):
         if isinstance(n, ast.Constant):
@@ -182,6 +190,8 @@ class Tr:
                 txt = 'l_' + n.id
                 if txt in self.optbound:
                     return self.optbound[txt]
+                if n.id in self.spec.get('predeclare', {}):
+                    return self.unwrap(n.id, n), self.spec['predeclare'][n.id]     # UnboundLocalError in Python <-> Err here
                 return txt, self.env[n.id]
             if n.id in self.mod.consts:
                 return self._e(ast.Constant(value=self.mod.consts[n.id]))
@@ -215,6 +225,8 @@ class Tr:
             for op, right in zip(n.ops, n.comparators):
                 parts.append(self.cmp(n, left, op, right))
                 left = right
+            if len(parts) == 1 and parts[0].startswith(('(vcmp2 ', '(map (fun y_ => l', '(zmask ')):
+                return parts[0], 'bvec'
             return (parts[0] if len(parts) == 1 else '(' + ' && '.join(parts) + ')'), 'B'
         if isinstance(n, ast.BoolOp):
             return self.boolop(n)
@@ -299,9 +311,13 @@ class Tr:
         if isinstance(n.op, ast.Pow) and isinstance(n.right, ast.Constant) and n.right.value == 2:
             if ta == 'T':
                 return '(mul %s %s)' % (a, a), 'T'
+            if ta == 'Z':
+                return '(Z.mul %s %s)' % (a, a), 'Z'
             fail(n, 'power')
         if isinstance(n.op, ast.FloorDiv) and ta == tb == 'Z':
             return '(Z.div %s %s)' % (a, b), 'Z'
+        if isinstance(n.op, ast.BitAnd) and ta == tb == 'bvec':
+            return '(band2 %s %s)' % (a, b), 'bvec'
         if isinstance(n.op, ast.Add) and ta == tb == 'zvec':
             return '(%s ++ %s)' % (a, b), 'zvec'        # python list concatenation (index lists)
         op = {ast.Add: 'add', ast.Sub: 'sub', ast.Mult: 'mul', ast.Div: 'div'}.get(type(n.op)) or fail(n, 'binop')
@@ -337,6 +353,20 @@ class Tr:
             return '(%s %s)' % ('is_none' if isinstance(op, ast.Is) else 'is_some', a)
         a, ta = self.e(l)
         b, tb = self.e(r)
+        fl = {ast.Lt: ('lt', False), ast.LtE: ('le', False), ast.Gt: ('lt', True), ast.GtE: ('le', True)}
+        if type(op) in fl and {ta, tb} <= {'vec', 'T', 'Z'} and 'vec' in (ta, tb):
+            f, swap = fl[type(op)]
+            if ta == 'Z':
+                a, ta = '(ofZ %s)' % a, 'T'
+            if tb == 'Z':
+                b, tb = '(ofZ %s)' % b, 'T'
+            if ta == tb == 'vec':
+                return '(vcmp2 %s %s %s)' % ((f, b, a) if swap else (f, a, b))     # elementwise comparison: a boolean mask
+            if ta == 'vec':
+                return '(map (fun y_ => %s) %s)' % (('%s %s y_' % (f, b)) if swap else ('%s y_ %s' % (f, b)), a)
+            return '(map (fun y_ => %s) %s)' % (('%s y_ %s' % (f, a)) if swap else ('%s %s y_' % (f, a)), b)
+        if isinstance(op, (ast.Eq, ast.NotEq)) and ta == 'zvec' and tb == 'Z':
+            return '(zmask (fun z_ => %s(Z.eqb z_ %s)) %s)' % ('negb ' if isinstance(op, ast.NotEq) else '', b, a)
         if isinstance(op, (ast.In, ast.NotIn)) and ta == 'Z' and tb == 'zvec':
             return ('(memZ %s %s)' if isinstance(op, ast.In) else '(negb (memZ %s %s))') % (a, b)
         if ta == tb == 'Z':
@@ -613,7 +643,14 @@ class Tr:
                 isinstance(n.keywords[0].value, ast.Constant) and n.keywords[0].value.value == 0:
             a, _ = self.e(args[0], want='mat')
             return '(vmean_rows %s)' % a, 'vec'
-        if name == 'zeros' and len(args) == 1:
+        if name == 'sum' and len(args) == 1 and not n.keywords:
+            a, _ = self.e(args[0], want='vec')
+            return '(vsum %s)' % a, 'T'
+        if name == 'zeros' and len(args) == 1 and len(n.keywords) == 1 and n.keywords[0].arg == 'dtype' and ast.unparse(n.keywords[0].value) == 'int' and \
+                isinstance(args[0], ast.Tuple) and len(args[0].elts) == 1:
+            a, _ = self.e(args[0].elts[0], want='Z')
+            return '(repeatZ 0 %s)' % a, 'zvec'
+        if name == 'zeros' and len(args) == 1 and not n.keywords:
             sh = args[0]
             if isinstance(sh, ast.Tuple) and len(sh.elts) == 1:
                 a, _ = self.e(sh.elts[0], want='Z')
@@ -684,6 +721,10 @@ class Tr:
             fail(n, 'np.where pattern')
         base, tb = self.e(n.value)
         sl = n.slice
+        if tb in ('vec', 'zvec') and isinstance(sl, (ast.Compare, ast.BinOp)):
+            m, tm = self.e(sl)
+            if tm == 'bvec':
+                return '(bfilt %s %s)' % (base, m), tb          # v[mask]: the entries where the mask holds, in order
         if tb in ('vec', 'zvec') and not isinstance(sl, (ast.Tuple, ast.Slice)):
             i, _ = self.e(sl, want='Z')
             return ('(getT %s %s)' if tb == 'vec' else '(getZ %s %s)') % (base, i), ('T' if tb == 'vec' else 'Z')
@@ -817,6 +858,8 @@ class Tr:
             return self.block(rest, k)
 
         if isinstance(s, ast.Assert):
+            if ast.unparse(s.test) in self.spec.get('drop_asserts', ()):
+                return nxt()        # a shape / dtype check that the typed model cannot express (listed in the schema)
             c, _ = self.truth(s.test)
             return 'if negb %s then Err AssertionError else\n%s' % (c, nxt())
         if isinstance(s, ast.Return):
@@ -837,7 +880,31 @@ class Tr:
                 # x = f(...) for a translated top-level function that may fail: bind its result
                 txt, t = rc
                 self.env[s.targets[0].id] = t
+                self.__dict__.setdefault('active_unwraps', set()).discard(s.targets[0].id)
                 return 'bind %s (fun l_%s =>\n%s)' % (txt, s.targets[0].id, nxt())
+            if rc is not None and isinstance(s.targets[0], ast.Tuple) and all(isinstance(x, ast.Name) for x in s.targets[0].elts) and rc[1].startswith('tup:'):
+                txt, t = rc
+                ts = split_tup(t)
+                if len(ts) != len(s.targets[0].elts):
+                    fail(s, 'tuple unpack of a call result')
+                for x, ty in zip(s.targets[0].elts, ts):
+                    if x.id in self.env and self.env[x.id] != ty:
+                        fail(s, 'call result changes the type of %s' % x.id)
+                    self.env[x.id] = ty
+                    self.__dict__.setdefault('active_unwraps', set()).discard(x.id)
+                return "bind %s (fun '(%s) =>\n%s)" % (txt, ', '.join('l_' + x.id for x in s.targets[0].elts), nxt())
+            if isinstance(s.value, ast.Call) and isinstance(s.value.func, ast.Name) and s.value.func.id == 'int' and len(s.value.args) == 1 and \
+                    isinstance(s.targets[0], ast.Name):
+                # k = int(float expression): truncation; NaN / out of range is an exception in Python, Err here
+                def conv():
+                    v, tv = self.e(s.value.args[0])
+                    if tv == 'Z':
+                        return self.assign_text(s.targets[0], v, 'Z', s)
+                    v, _ = self.coerce(v, tv, 'T', s)
+                    self.env[s.targets[0].id] = 'Z'
+                    return 'match py_int %s with None => Err OtherError | Some l_%s =>' % (v, s.targets[0].id)
+                body = self.simple(conv, nxt)
+                return body + ('\nend' if 'match py_int' in body else '')
             return self.simple(lambda: self.assign(s.targets[0], s.value, s), nxt)
         if isinstance(s, ast.AugAssign):
             op = type(s.op)()
@@ -858,7 +925,23 @@ class Tr:
             for nm in self.assigned([s]):
                 self.__dict__.setdefault('active_unwraps', set()).discard(nm[2:] if nm.startswith('l_') else nm)
         if isinstance(s, ast.If):
-            return self.do_if(s, nxt)
+            outer = getattr(self, 'unwraps', None)
+            self.unwraps = set()
+            saved_env, saved_fresh = dict(self.env), self.fresh
+            try:
+                self.truth(s.test)              # discover the option-typed locals the test reads as plain values
+                names = sorted(self.unwraps)
+            finally:
+                self.unwraps = outer
+                self.env, self.fresh = saved_env, saved_fresh
+            active = self.__dict__.setdefault('active_unwraps', set())
+            new = [nm for nm in names if nm not in active]
+            active.update(new)
+            body = self.do_if(s, nxt)
+            active.difference_update(new)
+            for nm in new:
+                body = 'match l_%s with None => Err OtherError | Some u_%s =>\n%s\nend' % (nm, nm, body)
+            return body
         if isinstance(s, ast.For):
             return self.do_for(s, nxt)
         if isinstance(s, ast.While):
@@ -1180,6 +1263,14 @@ class Tr:
             i, _ = self.e(sl.elts[0], want='Z')
             v, _ = self.coerce(v, t, 'vec', node)
             return '(updZ %s %s %s)' % (fld_txt, i, v)
+        if ft in ('vec', 'zvec') and isinstance(sl, (ast.Compare, ast.BinOp)):
+            m, tm = self.e(sl)
+            if tm != 'bvec':
+                fail(node, 'subscript assignment by a non-mask expression')
+            if t == ft:
+                return '(bscatter %s %s %s)' % (fld_txt, m, v)      # v[mask] = w (w has one entry per True of the mask)
+            v, _ = self.coerce(v, t, 'T' if ft == 'vec' else 'Z', node)
+            return '(bset %s %s %s)' % (fld_txt, m, v)              # v[mask] = scalar
         if ft == 'vec' and isinstance(sl, ast.Name) and self.env.get(sl.id) == 'zvec':
             v, _ = self.coerce(v, t, 'T', node)        # v[indices] = scalar
             return '(set_many %s l_%s %s)' % (fld_txt, sl.id, v)
@@ -1257,7 +1348,12 @@ def translate_function(mod, fname):
         if spec.get('ret'):
             fail(f, 'function may fall off its end without returning a value')
         return 'Ok ' + tr.tuple_of(st + ex + ['tt'])
-    txt = tr.block(body, endk)
+    pre = ''
+    for nm, ty in spec.get('predeclare', {}).items():
+        # a local that Python binds on some paths only: None until assigned, every read unwraps (UnboundLocalError <-> Err)
+        tr.env[nm] = 'opt:' + ty
+        pre += 'let l_%s := (None : option %s) in\n' % (nm, coqty(ty))
+    txt = pre + tr.block(body, endk)
     out = 'Definition %s%s%s%s : %s :=\n%s.' % (name, stp, params, extra, restype, txt)
     if spec.get('pure_wrapper'):
         w = spec['pure_wrapper']
@@ -1277,7 +1373,8 @@ def tr_pure(tr, body, f):
     if isinstance(s, ast.Return):
         v, _ = tr.e(s.value, want=tr.ret)
         return tr.finish(v)
-    if isinstance(s, ast.Assign) and len(s.targets) == 1 and isinstance(s.targets[0], (ast.Name, ast.Tuple)):
+    if isinstance(s, ast.Assign) and len(s.targets) == 1 and (isinstance(s.targets[0], (ast.Name, ast.Tuple)) or
+            (isinstance(s.targets[0], ast.Subscript) and isinstance(s.targets[0].value, ast.Name) and s.targets[0].value.id in tr.env)):
         return tr.assign(s.targets[0], s.value, s) + '\n' + tr_pure(tr, rest, f)
     if isinstance(s, ast.If):
         saved = dict(tr.env)
